@@ -147,12 +147,24 @@ static void pseudo_store(tcallback callback, Word MaxMultCharLen) {
             }
 
             while (cp < cend) {
+                /* at most four bytes per element */
+
+                if (SetMaxCodeLen((adr + 2) * 4)) {
+                    WrStrErrorPos(ErrNum_CodeOverflow, pArg);
+                    ok = False;
+                    break;
+                }
                 callback(&ok, &adr, CharTransTable[((usint)*cp++) & 0xff], t.Flags);
             }
             break;
         }
         case TempInt:
         ToInt:
+            if (SetMaxCodeLen((adr + 2) * 4)) {
+                WrStrErrorPos(ErrNum_CodeOverflow, pArg);
+                ok = False;
+                break;
+            }
             callback(&ok, &adr, t.Contents.Int, t.Flags);
             break;
         default:
